@@ -373,8 +373,12 @@ Section MultiStep.
     let! n := parse (wrap_flow flow_id body) in
     if Nat.eqb n 1 then Ok tt else Err AssertionError.
 
-  Definition multi_step_post (probe_id result : text) : option next_step_outcome :=
-    let lines := split_nl result in
+  (* `result.split("\n")[:MAX]`: only the first max_lines lines are considered (0 = no cap) *)
+  Definition cap_lines (max_lines : nat) (lines : list text) : list text :=
+    match max_lines with O => lines | S _ => firstn max_lines lines end.
+
+  Definition multi_step_post (probe_id : text) (max_lines : nat) (result : text) : option next_step_outcome :=
+    let lines := cap_lines max_lines (split_nl result) in
     shrink_fuel (gen_accepts probe_id) (List.length lines) lines.
 End MultiStep.
 
